@@ -309,6 +309,18 @@ func (c *CreateTable) Children() []Node {
 	if c.RowAccessPolicy != nil {
 		nodes = append(nodes, c.RowAccessPolicy)
 	}
+	if c.OnCluster != nil {
+		nodes = append(nodes, c.OnCluster)
+	}
+	if c.OrderBy != nil {
+		nodes = append(nodes, c.OrderBy)
+	}
+	if c.ClusterBy != nil {
+		nodes = append(nodes, c.ClusterBy)
+	}
+	if c.AggregationPolicy != nil {
+		nodes = append(nodes, c.AggregationPolicy)
+	}
 	return nodes
 }
 func (c *CreateTable) TokenLiteral() string { return "CREATE TABLE" }
